@@ -412,6 +412,12 @@ func buildC11(tier string) sim.Scenario {
 				}
 				res = sw.httpDo(fmt.Sprintf("ts-%d", q), "GET", "/streams/live/a/"+mm[1]+".ts?token="+tok, nil, "")
 				gotSeg := res.Status == 200 && len(res.Body) >= 188 && res.Body[0] == 0x47
+				if res.Status == 404 {
+					// not an authorization answer: the segment window moved on between the playlist and the request
+					if pl2, err2 := streams["/live/a"].Hlsable().M3u8(tok); err2 != nil || !strings.Contains(string(pl2), "/"+mm[1]+".ts") {
+						break
+					}
+				}
 				verdict("hls-segment", user, "pull", "/live/a", gotSeg, fmt.Sprintf("status %d, %d bytes", res.Status, len(res.Body)))
 			case 2, 3: // RTSP digest play
 				cl := sw.rtspConnect(fmt.Sprintf("rtsp%d", q), 256<<10)
